@@ -464,6 +464,13 @@ def gen_env_lines(rng, n, cores, page):
                 lines.append("%s ABT_%s=%s" % (head, s, hx(w)))
     for w in GUARD_WORDS:
         lines.append("%s ABT_STACK_OVERFLOW_CHECK=%s" % (head, hx(w)))
+    # ABT_SET_AFFINITY end to end (parser + ABTD_affinity_init under the sanitizers); no setting depends on it
+    for i in range(40):
+        a = gen_aff_string(rng, special=False)
+        if i % 2:
+            a = mutate(rng, a)
+        a = a.split(b"\0")[0]
+        lines.append("%s %sSET_AFFINITY=%s" % (head, ENV_PREFIXES[i % 3 == 0], hx(a)))
     while len(lines) < n:
         kv = {}
         for _ in range(1 + rng.below(6)):
@@ -474,10 +481,116 @@ def gen_env_lines(rng, n, cores, page):
     return lines
 
 
+# ---- configuration objects -------------------------------------------------------------
+CFG_TAGS = {0: "int", 1: "double", 2: "ptr"}
+FILL = 0xAAAAAAAAAAAAAAAA
+
+
+def cfg_stored(e):
+    if e is None:
+        return FILL
+    t, b = e
+    return (0xAAAAAAAA00000000 | (b % 2**32)) if t == 0 else b % 2**64
+
+
+class CfgOracle:
+    """two typed maps (sched / pool): key -> (type tag, bits)"""
+
+    def __init__(self):
+        self.m = {"s": {}, "p": {}}
+
+    def line(self, l):
+        w = l.split()
+        op = w[0]
+        if op == "screate":
+            k = int(w[1])
+            new = {}
+            for i in range(k):
+                idx, tag, bits = int(w[2 + 3 * i]), int(w[3 + 3 * i]), int(w[4 + 3 * i])
+                if idx == -1:
+                    break
+                if tag not in CFG_TAGS:
+                    return "err %d" % ERR_INV_ARG
+                new[idx] = (tag, bits)
+            self.m["s"] = new
+            return "ok"
+        if op == "pcreate":
+            self.m["p"] = {}
+            return "ok"
+        m = self.m[op[0]]
+        if op[1:] == "set":
+            idx, tag = int(w[1]), int(w[2])
+            if w[3] == "null":
+                m.pop(idx, None)
+                return "err 0"
+            if tag not in CFG_TAGS:
+                return "err %d" % ERR_INV_ARG
+            m[idx] = (tag, int(w[3]))
+            return "err 0"
+        if op[1:] == "get":
+            e = m.get(int(w[1]))
+            return "err %d" % ERR_INV_ARG if e is None else "got %d %016x" % (e[0], cfg_stored(e))
+        if op[1:] == "readi":
+            e = m.get(int(w[1]))
+            return "err %d" % ERR_INV_ARG if e is None else "readi %016x" % cfg_stored(e)
+        if op == "sread":
+            n, mask = int(w[1]), int(w[2])
+            return "read" + "".join(" %016x" % cfg_stored(m.get(i)) if (mask >> i) & 1 else " -" for i in range(n))
+        return "bad-op"
+
+
+def gen_config_lines(rng, n):
+    keys = [0, 1, 2, 3, 4, 5, -2, -3, -4, -1, 8, 16, -8, 11, 3 + 8, 3 - 8, 3 + 64, INT_MIN, INT_MAX, INT_MIN + 1, 7, 15, -9]
+    dbl = [0, 0x3ff0000000000000, 0xbff8000000000000, 0x8000000000000000, 0x7ff0000000000000, 0x400921fb54442d18]
+
+    def val(tag):
+        if tag == 0:
+            return rng.choice([0, 1, 50, 2**31 - 1, 2**31, 2**32 - 1, 12345, 2**32 - 5])
+        if tag == 1:
+            return rng.choice(dbl)
+        return rng.choice([0, 8, 0x7ffdeadbeef0, 2**64 - 1, 0x10, 2**47])
+
+    lines = ["screate 0", "pcreate"]
+    hist = collections.Counter()
+    while len(lines) < n:
+        r = rng.below(100)
+        k = rng.choice(keys)
+        sp = rng.choice("sp")
+        if r < 4:
+            cnt = rng.below(3)
+            ps = []
+            for _ in range(cnt):
+                t = rng.choice([0, 1, 2, 0, 1, 2, 0, 7])
+                kk = rng.choice([x for x in keys if x != -1])
+                ps.append("%d %d %d" % (kk, t, val(t if t in CFG_TAGS else 0)))
+            lines.append(("screate %d " % cnt + " ".join(ps)).strip())
+            hist["screate%d" % cnt] += 1
+        elif r < 6:
+            lines.append("pcreate")
+            hist["pcreate"] += 1
+        elif r < 45:
+            t = rng.choice([0, 1, 2, 0, 1, 2, 0, 1, 2, 3, -1, 77])
+            lines.append("%sset %d %d %d" % (sp, k, t, val(t if t in CFG_TAGS else 0)))
+            hist["set" if t in CFG_TAGS else "set-invalid-type"] += 1
+        elif r < 58:
+            lines.append("%sset %d %d null" % (sp, k, rng.choice([0, 1, 2, 9])))
+            hist["delete"] += 1
+        elif r < 82:
+            lines.append("%sget %d" % (sp, k))
+            hist["get"] += 1
+        elif r < 92:
+            lines.append("%sreadi %d" % (sp, k))
+            hist["read-internal"] += 1
+        else:
+            lines.append("sread %d %d" % (rng.below(5), rng.below(16)))
+            hist["read"] += 1
+    return lines, hist
+
+
 # ---------------------------------------------------------------------------------
 # running one family
 # ---------------------------------------------------------------------------------
-def run_family(res, name, model, exe, lines, oracle, describe, max_report=3):
+def run_family(res, name, model, exe, lines, oracle, describe, max_report=3, stateful=None):
     """returns (n_checked, real outputs).  Reports violations / broken correspondence."""
     rc, out_c, err_c = D.run_lines([exe], lines, timeout=900)
     out_c = [l for l in out_c]
@@ -499,6 +612,27 @@ def run_family(res, name, model, exe, lines, oracle, describe, max_report=3):
         c = out_c[i] if i < len(out_c) else "<missing>"
         m = out_m[i] if i < len(out_m) else "<missing>"
         want = oracle(l)
+        if stateful and (c != want or m != c):
+            # history matters: keep (and shrink) the prefix that leads to the disagreement
+            def bad(ls):
+                o = stateful()
+                rc2, oc, _ = D.run_lines([exe], ls)
+                rc3, om, _ = D.model_lines(model, ls)
+                ws = [o(x) for x in ls]
+                return rc2 != 0 or oc[:len(ls)] != ws or om[:len(ls)] != oc[:len(ls)]
+            small = D.ddmin(lines[:i + 1], bad, budget=120)
+            o = stateful()
+            rc2, oc, _ = D.run_lines([exe], small)
+            rc3, om, _ = D.model_lines(model, small)
+            ws = [o(x) for x in small]
+            real_wrong = oc[:len(small)] != ws
+            res.violation("%s: after %s the real code says `%s`, %s" % (
+                name, "; ".join(small[:-1][-6:]) or "(nothing)", (oc[len(small) - 1] if len(oc) >= len(small) else "?")[:120],
+                ("the property demands `%s` for %s" % (ws[-1][:120], describe(small[-1]))) if real_wrong else
+                ("the model says `%s` for %s (real code still meets the property)" % ((om[len(small) - 1] if len(om) >= len(small) else "?")[:120], describe(small[-1])))),
+                {"family": name, "lines": small, "impl": oc[:len(small)], "oracle": ws, "model": om[:len(small)]},
+                no_input=not real_wrong)
+            break
         if c != want:
             cs, ws = c, want
             if name == "env":   # show only the settings that differ
@@ -655,6 +789,7 @@ def run(res, tier, broken):
 
     # ---- environments ----------------------------------------------------------------
     n_env = 0
+    sp_obs = []
     nvars = collections.Counter()
     for batch in range(scale):
         lines = gen_env_lines(rng, 260 if batch == 0 else 400, cores, page)
@@ -662,19 +797,45 @@ def run(res, tier, broken):
             nvars[len(l.split()) - 3] += 1
         n, out_c = run_family(res, "env", "env", exe_env, lines, orc, describe_line)
         n_env += len(lines)
+        for l, o in zip(lines, out_c):     # reported finding (not failing): thread_stacksize * 4 wraps / exceeds the maximum
+            d = dict(x.split("=") for x in o.split() if "=" in x)
+            if d and (int(d["MEM_STACK_PAGE_SIZE"]) > HALF64 + 63 or int(d["MEM_STACK_PAGE_SIZE"]) < 4 * int(d["THREAD_STACKSIZE"])):
+                sp_obs.append("%s -> THREAD_STACKSIZE=%s MEM_STACK_PAGE_SIZE=%s" % (describe_line(l), d["THREAD_STACKSIZE"], d["MEM_STACK_PAGE_SIZE"]))
         if batch == 0 and out_c:
             res.sample({"env": [describe_line(lines[40]) + " -> " + out_c[40][:160]]})
         if res.violations:
             break
-    res.add_cov(environments=n_env, env_vars_per_environment=dict(nvars),
-                disagreements_checked=n_atoi * 4 + n_aff + n_env)
+    # ---- configuration objects ----------------------------------------------------------
+    exe_cfg = C.cc_harness("wb_config", ["wb_config.c"], "san")
+    n_cfg = 0
+    chist = collections.Counter()
+    for batch in range(2 * scale):
+        lines, h = gen_config_lines(rng, 1500)
+        chist.update(h)
+        co = CfgOracle()
+        n, out_c = run_family(res, "config", "config", exe_cfg, lines, co.line, lambda l: "`%s`" % l,
+                              stateful=lambda: CfgOracle().line)
+        n_cfg += len(lines)
+        if batch == 0:
+            res.sample({"config": ["%s -> %s" % (l, o) for l, o in list(zip(lines, out_c))[40:48]]})
+        if res.violations:
+            break
+    if sp_obs:
+        res.notes.append("MEM_STACK_PAGE_SIZE outside [4*thread_stacksize, SIZE_MAX/2] because `thread_stacksize * 4` is "
+                         "computed without overflow check (env_clamped_dyn_min_partial): %d inputs, e.g. %s" % (len(sp_obs), sp_obs[0]))
+    res.add_cov(env_mem_sp_size_out_of_range=len(sp_obs))
+    res.add_cov(environments=n_env, env_vars_per_environment=dict(nvars), config_ops=n_cfg,
+                config_op_histogram=dict(chist), disagreements_checked=n_atoi * 4 + n_aff + n_env + n_cfg)
 
 
 def replay(res, rep):
     cores, page = os.sysconf("SC_NPROCESSORS_ONLN"), os.sysconf("SC_PAGE_SIZE")
     orc = line_oracle(cores, page)
     fam = rep["family"]
-    exe = {"atoi": "wb_atoi", "affinity": "wb_affinity", "env": "wb_env"}[fam]
+    if fam == "config":
+        co = CfgOracle()
+        orc = co.line
+    exe = {"atoi": "wb_atoi", "affinity": "wb_affinity", "env": "wb_env", "config": "wb_config"}[fam]
     exe = C.cc_harness(exe, [exe + ".c"], "san")
     lines = rep.get("lines", [])
     rc, out_c, err = D.run_lines([exe], lines)
